@@ -31,6 +31,10 @@ class AsyncioRunner(BaseRunner):
         return future.result()
 
     def _setup_payload(self, payload: Callable[[], Awaitable]):
+        if self._stopped.is_set():
+            # nobody will cancel and clean up a payload started after the runner closed
+            self._logger.warning(f"discarding payload {payload} during shutdown")
+            return
         task = self.asyncio_loop.create_task(self._monitor_payload(payload))
         self._tasks.add(task)
 
